@@ -673,6 +673,19 @@ func (in *instrumenter) exprs(st ast.Stmt) {
 	}
 }
 
+// hasCall: does the expression contain a call (conversions and builtins included: cheap
+// over-approximation, constants are filtered by the caller)?
+func (in *instrumenter) hasCall(e ast.Expr) bool {
+	found := false
+	ast.Inspect(e, func(n ast.Node) bool {
+		if _, ok := n.(*ast.CallExpr); ok {
+			found = true
+		}
+		return !found
+	})
+	return found
+}
+
 // expr rewrites an expression: atomic calls get a yield in front, function
 // literals are instrumented recursively.
 func (in *instrumenter) expr(e ast.Expr) ast.Expr {
@@ -704,6 +717,15 @@ func (in *instrumenter) expr(e ast.Expr) ast.Expr {
 						recv = &ast.UnaryExpr{Op: token.AND, X: recv}
 					}
 					se.X = simCall("Y", in.newSite(x.Pos(), "atomic:"+fn.Name()), recv)
+					// arguments that are computed by further calls (x.Store(a | x.Load()&m)) are
+					// evaluated after the yield above: one more yield between the last argument
+					// and the operation itself, or a load-then-store of the same word would
+					// look atomic
+					if n := len(x.Args); n > 0 && in.hasCall(x.Args[n-1]) {
+						if tv, ok := in.info.Types[x.Args[n-1]]; !ok || tv.Value == nil {
+							x.Args[n-1] = simCall("Y", in.newSite(x.Pos(), "atomic-args:"+fn.Name()), x.Args[n-1])
+						}
+					}
 					in.wrapped[x] = true
 					return x
 				}
